@@ -10,8 +10,8 @@ derived from the same width constants; (c) the shard tag is the owning shard (C1
 Noted, not armed: ConditionEvaluator's synthetic id (zone_id << 32 | row) has no segment component.
 Does NOT decide behaviour under real clocks, > 4096 events/ms across a wait, or restart with a clock behind the last persisted id (last_millis is not recovered).
 """
-FLOOR = 6
-REQUIRED = ["C18.a", "C18.b1", "C18.b2", "C18.b3", "C18.d", "C18.e"]
+FLOOR = 7
+REQUIRED = ["C18.a", "C18.b1", "C18.b2", "C18.b3", "C18.d", "C18.e", "C18.f"]
 
 
 def const_val(F, path):
@@ -302,5 +302,36 @@ def run(ctx):
             bad.append(("generator-ignores-flushed-ids", "ShardContext::new starts a fresh EventIdGenerator and only WAL replay advances it: ids that live in segments only (their WAL is pruned) are not taken into account", None))
         return bad
     ctx.run("C18.e", "K2 CUT + K10 READS", "WalRecovery::replay_log_file / ShardContext::new", "a restarted shard never issues an id below one the store already holds", e)
+
+    def f_(inst):
+        """`Rows read from any storage tier carry their real id`: the events a sequence query returns are rebuilt from zones by
+        SequenceMaterializer; the id read from the zone's event_id column must not be overwritten with a constant, and the result
+        stream must have an event_id column like every other query result."""
+        bad = []
+        n = 0
+        for k in sorted(F.keys()):
+            if k.startswith("bin:") or not re.search(r"sequence::materializer::SequenceMaterializer::", k):
+                continue
+            b = F.fn_exact(k)
+            n += 1
+            for c in b.calls:
+                if not c.cleanup and c.nname.endswith("Event::set_event_id"):
+                    L = b.origins(c.args[1])
+                    if all(l[0] == "const" or (l[0] == "call" and re.search(r"EventId.*::from$|EventId::from_raw$", l[1]) and all(x[0] == "const" for x in b.origins(b.call_at(l[2]).args[0]))) for l in L):
+                        bad.append(("sequence-event-id-overwritten", "%s overwrites the id of a materialized event with a constant: the events of a sequence result do not carry their real id" % k.split("::")[-1], sp(b, c.bb)))
+        if n < 1:
+            raise AnchorMissing("SequenceMaterializer bodies")
+        m = F.fn("SequenceStreamMerger::create_result_stream")
+        names = set()
+        for (bb, jx, v, dst) in m.aggregates("ColumnSpec"):
+            o = dict(zip(v.get("fields", []), v["o"])).get("name")
+            for l in m.origins(o):
+                if l[0] == "const":
+                    names.add(l[1].strip('"'))
+        inst.sites.append("core columns of a sequence result: %s" % sorted(names))
+        if "event_id" not in names:
+            bad.append(("sequence-result-without-event-id", "the result stream of a sequence query has no event_id column", None))
+        return bad
+    ctx.run("C18.f", "K7 PROV", "SequenceMaterializer / SequenceStreamMerger::create_result_stream", "the rows of a sequence result carry their real id", f_)
 
     ctx.note("ConditionEvaluator::evaluate_zones_with_limit synthesises (zone_id << 32 | row) when event_id is missing/zero; not armed (reachability of a missing id column not demonstrated)")
